@@ -17,6 +17,8 @@ static void mk_string(struct ST_string *s)
     s->m_buffer.m_chars = in; s->m_buffer.m_size = n;
 }
 
+static void post_b64_decode(const unsigned char *in, size_t n, unsigned char *output, size_t output_size, ssize_t r);
+static void post_hex_decode(const unsigned char *in, size_t n, unsigned char *output, size_t output_size, ssize_t r);
 /* ------------------------------------------------------------------ b64_decode (C15, C14) */
 void h_b64_decode(void)
 {
@@ -27,6 +29,10 @@ void h_b64_decode(void)
     unsigned char *output = NULL;
     if (nondet_bool()) { output = malloc(output_size); __CPROVER_assume(output != NULL); }
     ssize_t r = stp_b64_decode(&s, output, output_size);
+    post_b64_decode(in, n, output, output_size, r);
+}
+static void post_b64_decode(const unsigned char *in, size_t n, unsigned char *output, size_t output_size, ssize_t r)
+{
 #ifndef HYP_VALID
     __CPROVER_assert(output != NULL || r == ((n & 3) != 0 ? -1 : (ssize_t)B64_DECLEN(n, in)),
         "stp_b64_decode.postcondition.1: null output returns the length implied by size and padding (-1 if size is not a multiple of 4)");
@@ -57,6 +63,10 @@ void h_hex_decode(void)
     unsigned char *output = NULL;
     if (nondet_bool()) { output = malloc(output_size); __CPROVER_assume(output != NULL); }
     ssize_t r = stp_hex_decode(&s, output, output_size);
+    post_hex_decode(in, n, output, output_size, r);
+}
+static void post_hex_decode(const unsigned char *in, size_t n, unsigned char *output, size_t output_size, ssize_t r)
+{
 #ifndef HYP_VALID
     __CPROVER_assert(output != NULL || r == ((n & 1) != 0 ? -1 : (ssize_t)(n >> 1)),
         "stp_hex_decode.postcondition.1: null output returns size/2 (-1 for odd size)");
@@ -142,3 +152,81 @@ void h_lemma_hex_roundtrip(void)
     __CPROVER_assert((unsigned char)((HEXVAL(HI) << 4) | HEXVAL(LO)) == b, "lemma_hex.2: upper-case digits decode to the same byte");
     __CPROVER_assert((hi >= '0' && hi <= '9') || (hi >= 'a' && hi <= 'f'), "lemma_hex.3: encoder digits are lower-case hexadecimal");
 }
+
+/* ------------------------------------------------------------------ bounded real-state runs (cross-check and source of
+ * replayable counterexamples; never counted as proved).  Loops are NOT cut in this unit; inputs are named R_* so that the
+ * runner can hand them to the native replay program (replay/codecs.cpp).                                                  */
+#ifdef BOUNDED
+unsigned char R_IN[BOUNDED + 1]; size_t R_N; size_t R_OSZ; int R_HASOUT;
+static void mk_bounded_string(struct ST_string *s)
+{
+    R_N = nondet_size_t(); __CPROVER_assume(R_N <= BOUNDED);
+    char *in = malloc(R_N + 1); __CPROVER_assume(in != NULL);
+    for (size_t i = 0; i < BOUNDED; i++) { R_IN[i] = nondet_uchar(); if (i < R_N) in[i] = (char)R_IN[i]; }
+    in[R_N] = 0;
+    s->m_buffer.m_chars = in; s->m_buffer.m_size = R_N;
+}
+void hb_b64_decode(void)
+{
+    ghosts();
+    struct ST_string s; mk_bounded_string(&s);
+    R_OSZ = nondet_size_t(); __CPROVER_assume(R_OSZ <= BOUNDED); R_HASOUT = nondet_bool();
+    unsigned char *output = NULL;
+    if (R_HASOUT) { output = malloc(R_OSZ); __CPROVER_assume(output != NULL); }
+    ssize_t r = stp_b64_decode(&s, output, R_OSZ);
+    post_b64_decode(STR_IN(&s), R_N, output, R_OSZ, r);
+    if (output != NULL && (R_N & 3) == 0 && B64_DECLEN(R_N, STR_IN(&s)) <= R_OSZ) {
+        _Bool valid = 1;
+        for (size_t i = 0; i < BOUNDED; i++) if (i < R_N && !B64_VALID_AT(STR_IN(&s), R_N, i)) valid = 0;
+        __CPROVER_assert(!valid || r >= 0, "stp_b64_decode.postcondition.7: a valid encoding that fits is accepted");
+    }
+}
+void hb_hex_decode(void)
+{
+    ghosts();
+    struct ST_string s; mk_bounded_string(&s);
+    R_OSZ = nondet_size_t(); __CPROVER_assume(R_OSZ <= BOUNDED); R_HASOUT = nondet_bool();
+    unsigned char *output = NULL;
+    if (R_HASOUT) { output = malloc(R_OSZ); __CPROVER_assume(output != NULL); }
+    ssize_t r = stp_hex_decode(&s, output, R_OSZ);
+    post_hex_decode(STR_IN(&s), R_N, output, R_OSZ, r);
+    if (output != NULL && (R_N & 1) == 0 && (R_N >> 1) <= R_OSZ) {
+        _Bool valid = 1;
+        for (size_t i = 0; i < BOUNDED; i++) if (i < R_N && HEXVAL(STR_IN(&s)[i]) < 0) valid = 0;
+        __CPROVER_assert(!valid || r >= 0, "stp_hex_decode.postcondition.5: an even-length string of hexadecimal digits that fits is accepted");
+    }
+}
+void hb_b64_encode(void)
+{
+    ghosts();
+    R_N = nondet_size_t(); __CPROVER_assume(R_N <= BOUNDED);
+    size_t Q = (R_N + 2) / 3;
+    unsigned char *data = malloc(R_N); __CPROVER_assume(data != NULL);
+    for (size_t i = 0; i < BOUNDED; i++) { R_IN[i] = nondet_uchar(); if (i < R_N) data[i] = R_IN[i]; }
+    char *out = malloc((Q << 2) + 1); __CPROVER_assume(out != NULL);
+    char guard = nondet_uchar(); out[Q << 2] = guard;
+    stp_b64_encode(out, data, R_N);
+    if (GK < Q) {
+        size_t rem = R_N - (GK + (GK << 1)); if (rem > 3) rem = 3;
+        const unsigned char *p = data + (GK + (GK << 1));
+        __CPROVER_assert(out[GK << 2] == B64_ENC0(p, rem), "stp_b64_encode.postcondition.1: character 0 of every group is the RFC 4648 encoding");
+        __CPROVER_assert(out[(GK << 2) + 1] == B64_ENC1(p, rem), "stp_b64_encode.postcondition.2: character 1 of every group is the RFC 4648 encoding");
+        __CPROVER_assert(out[(GK << 2) + 2] == B64_ENC2(p, rem), "stp_b64_encode.postcondition.3: character 2 of every group is the RFC 4648 encoding (or '=')");
+        __CPROVER_assert(out[(GK << 2) + 3] == B64_ENC3(p, rem), "stp_b64_encode.postcondition.4: character 3 of every group is the RFC 4648 encoding (or '=')");
+    }
+    __CPROVER_assert(out[Q << 2] == guard, "stp_b64_encode.postcondition.5: exactly 4*ceil(n/3) characters are written");
+}
+void hb_hex_encode(void)
+{
+    ghosts();
+    R_N = nondet_size_t(); __CPROVER_assume(R_N <= BOUNDED);
+    unsigned char *data = malloc(R_N); __CPROVER_assume(data != NULL);
+    for (size_t i = 0; i < BOUNDED; i++) { R_IN[i] = nondet_uchar(); if (i < R_N) data[i] = R_IN[i]; }
+    char *out = malloc((R_N << 1) + 1); __CPROVER_assume(out != NULL);
+    char guard = nondet_uchar(); out[R_N << 1] = guard;
+    stp_hex_encode(out, data, R_N);
+    __CPROVER_assert(!(GK < R_N) || (out[GK << 1] == HEXCHAR(data[GK] >> 4) && out[(GK << 1) + 1] == HEXCHAR(data[GK] & 15)),
+        "stp_hex_encode.postcondition.1: two lower-case hexadecimal digits per byte, high nibble first");
+    __CPROVER_assert(out[R_N << 1] == guard, "stp_hex_encode.postcondition.2: exactly 2n characters are written");
+}
+#endif
